@@ -190,8 +190,12 @@ def main():
                     sr = run_conc(c, "shim", 0, values=rr["values"], choices=rr["choices"])
                     res["shim_runs"] += 1
                     res["shim_problems"].extend(compare_records(rr, sr))
-                    if sr["failures"]:
-                        res["shim_problems"].extend("shim-concrete check failed: " + f for f in sr["failures"])
+                    # a check failing under the shim is a shim problem only if the
+                    # same check passed on the real torch with the same inputs
+                    real_failed = {f.split(": ")[0] for f in rr.get("failures", [])}
+                    for f in sr["failures"]:
+                        if f.split(": ")[0] not in real_failed:
+                            res["shim_problems"].append("shim-concrete check failed (but passed on the real torch): " + f)
             res["sym"] = run_sym(c) if "sym" in c.modes else None
             res["canaries"] = {}
             for mname in c.canaries:
